@@ -894,7 +894,7 @@ impl Meta {
     unsafe {
       let ptr = arena.raw_mut_ptr().add(self.ptr_offset as usize);
       #[cfg(rarena_verif)]
-      crate::verif::plain_write(ptr as usize, self.ptr_size as usize);
+      use crate::verif::shadow_core as core;
       core::ptr::write_bytes(ptr, 0, self.ptr_size as usize);
     }
   }
